@@ -1,5 +1,5 @@
 #!/bin/bash
-# tools/reverify_parallel.sh [jobs]  — re-runs every kept seeded change against its check, the twenty properties in parallel.
+# tools/reverify_parallel.sh [jobs [Cxx ...]]  — re-runs every kept seeded change against its check, the twenty properties in parallel.
 # Each seed gets its own scratch worktree of /repo's HEAD under /tmp (removed afterwards); the check runs against it through
 # REPO_ROOT, so /repo's working tree is never touched.  Prints one line per seed: REPORTED / MISSED, "(no input)" when the report
 # ends in no-failing-input-found, and the first violation, to be read for relevance.
@@ -12,7 +12,10 @@ one_property() {
     [ -f $d/patch.diff ] || continue
     n=$(basename $d); wt=/tmp/rv_$n
     git -C /repo worktree remove --force $wt >/dev/null 2>&1; rm -rf $wt
-    git -C /repo worktree add --detach $wt HEAD >/dev/null 2>&1
+    for try in 1 2 3 4 5 6; do      # concurrent `git worktree add` calls contend for the repository lock
+      git -C /repo worktree add --detach $wt HEAD >/dev/null 2>&1 && break
+      sleep $((RANDOM % 3 + 1))
+    done
     if ! git -C $wt apply $(pwd)/$d/patch.diff 2>/dev/null; then
       printf "%-7s PATCH-DOES-NOT-APPLY\n" $n >> .work/reverify_parallel/$pid.log
     else
@@ -26,7 +29,9 @@ one_property() {
   done
 }
 export -f one_property
-printf "%s\n" C01 C02 C03 C04 C05 C06 C07 C08 C09 C10 C11 C12 C13 C14 C15 C16 C17 C18 C19 C20 | xargs -P $jobs -I{} bash -c 'one_property {}'
+shift
+props="$*"; [ -z "$props" ] && props="C01 C02 C03 C04 C05 C06 C07 C08 C09 C10 C11 C12 C13 C14 C15 C16 C17 C18 C19 C20"
+printf "%s\n" $props | xargs -P $jobs -I{} bash -c 'one_property {}'
 git -C /repo worktree prune
 cat $out/C*.log
 echo "total: $(cat $out/C*.log | wc -l)  reported: $(cat $out/C*.log | grep -c REPORTED)  without input: $(cat $out/C*.log | grep -c '(no input)')  missed: $(cat $out/C*.log | grep -c 'MISSED\|PATCH-DOES')"
